@@ -28,6 +28,26 @@ func init() {
 		kind, out := c02Stream(s)
 		return kind != "", fmt.Sprintf("%s delivered=%v", kind, showDelivered(out))
 	}
+	Replayers["streams-one-handler-bytes"] = func(c json.RawMessage) (bool, string) {
+		var k struct {
+			Streams []string `json:"streams_through_one_handler"`
+		}
+		json.Unmarshal(c, &k)
+		h := handler.New(frameStart, slog.LevelInfo)
+		for i, hx := range k.Streams {
+			var st []byte
+			fmt.Sscanf(hx, "%x", &st)
+			ms, fault := implHandleMessages(h, st)
+			var cat []byte
+			for _, m := range ms {
+				cat = append(cat, m.RawData...)
+			}
+			if fault != "" || !bytes.Equal(cat, st) {
+				return true, fmt.Sprintf("stream %d: %d bytes fed, %d delivered %s", i+1, len(st), len(cat), fault)
+			}
+		}
+		return false, "every stream reproduced"
+	}
 	Replayers["streams-one-handler"] = func(c json.RawMessage) (bool, string) {
 		var k struct {
 			Streams []string `json:"streams_through_one_handler"`
@@ -233,6 +253,40 @@ func C02Input(r *ev.Run) {
 		atomic.AddInt64(&r.DistinctN, 1)
 	}
 	r.Sample(map[string]interface{}{"enumeration": "S3", "junk_run_lengths": len(lens), "longest": 65538})
+	// S5: three consecutive streams through ONE handler with the real HandleMessages
+	// (an application that reconnects keeps its handler): every stream is
+	// reproduced, however the one before it ended
+	f3 := ref.TypedFrame(1005, 19, fillA)
+	firsts := [][]byte{{}, f3, append(append([]byte{}, f3...), []byte("$GP\r\n")...), []byte("x"), append(append([]byte{}, f3...), 0x0A), {0xD3}, f3[:2], f3[:4], f3[:9], f3[:len(f3)-1], append(append([]byte{}, f3...), 0xD3, 0x00)}
+	var seconds [][]byte
+	sequences(len(menu), 2, func(idx []int) {
+		s, _ := concatSegs(menu, idx)
+		seconds = append(seconds, s)
+	})
+	parallelFor(len(firsts), func(fi int) {
+		for _, second := range seconds {
+			h := handler.New(frameStart, slog.LevelInfo)
+			for si, st := range [][]byte{firsts[fi], second, append(append([]byte{}, f3...), []byte("tail")...)} {
+				ms, fault := implHandleMessages(h, st)
+				var cat []byte
+				for _, m := range ms {
+					cat = append(cat, m.RawData...)
+				}
+				mu.Lock()
+				r.Count(1, 1, 1, 1)
+				atomic.AddInt64(&r.DistinctN, 1)
+				bad := fault != "" || !bytes.Equal(cat, st)
+				if bad {
+					r.Violate(ev.Violation{Fingerprint: fmt.Sprintf("C02 stream-%d-on-one-handler not reproduced", si+1), What: fmt.Sprintf("stream %d through a handler that has already read %d stream(s): %d bytes fed, %d delivered %s", si+1, si, len(st), len(cat), fault),
+						Case: map[string]interface{}{"streams_through_one_handler": []string{ev.FullHex(firsts[fi]), ev.FullHex(second), ev.FullHex(append(append([]byte{}, f3...), []byte("tail")...))}, "failing_stream": si + 1}, ReplayKind: "streams-one-handler-bytes"})
+				}
+				mu.Unlock()
+				if bad {
+					break
+				}
+			}
+		}
+	})
 }
 
 // c03 segment menu: valid frames and D3-free junk only.
